@@ -330,7 +330,7 @@ fn constructs(report: &Report, full: bool) {
         // every pool value as a container, every pool value as an index, one lookup per template (a failing lookup
         // must not hide the next one), plus literal negative indexes around the array lengths in the pool (0, 1, 3, 25, 40)
         let vals = vals.clone();
-        const SHAPES: [&str; 14] = [
+        const SHAPES: [&str; 20] = [
             "{{ c[i] }}",
             "{% if c[i] %}T{% else %}F{% endif %}",
             "{{ c[i][i] }}",
@@ -345,6 +345,12 @@ fn constructs(report: &Report, full: bool) {
             "{{ c[-41] }}",
             "{{ c.last[-1] }}",
             "{% if c[-1] %}T{% endif %}{% unless c[-4] %}U{% endunless %}",
+            "{{ c.size }}",
+            "{{ c.first }}",
+            "{{ c.last }}",
+            "{{ c['k'] }}",
+            "{{ c.first.size }}",
+            "{{ c.last.last }}",
         ];
         fams.push((
             "index paths: container x index".into(),
